@@ -60,10 +60,18 @@ def c01_api(r, idx):
         th = cm.message("Thing"); th.field("label", 1, "string")
         api.main.dep(cm.proto.name)
         rack = api.main.message("Rack")
+        tier = cm.enum("ThingTier", ["THING_TIER_UNSPECIFIED", "THING_TIER_ONE"])
         slot = rack.nested("Slot"); slot.field("common", 1, "string").field("thing", 2, th.fqn)
+        # ... and an ENUM of that module used after the field named like it (enum references take the alias too)
+        lane = rack.nested("Lane"); lane.field("common", 1, "string").field("tier", 2, ("enum", tier)).map_field("tiers", 3, "string", ("enum", tier))
+        rack.field("lanes", 2, lane.fqn, repeated=True)
         rack.field("slots", 1, slot.fqn, repeated=True)
         first = api.main.proto.message_type[0]
         f = first.field.add(); f.name, f.number, f.label, f.type, f.type_name = "rack", 76, 1, 11, rack.fqn
+        # a flattened map argument whose value message (and one whose value enum) lives in that other file
+        tq = api.main.message("TagRackRequest")
+        tq.field("name", 1, "string").map_field("things", 2, "string", th.fqn).map_field("tiers", 3, "string", ("enum", tier))
+        api.services[0].rpc("TagRack", tq.fqn, rack.fqn, http=("post", "/v1/{name=racks/*}:tag"), body="*", sigs=["name,things", "name,tiers"])
         extra_files.append(cm)
         feats.append("nested-field-named-like-module")
     if idx % 3 != 2:
